@@ -437,6 +437,19 @@ def do_op(ctx, aid, oi, table, op):
         t2 = ctx.table((s.current.proc.pid, len(ctx.gws) - 1))
         t2["__gw__"] = gw
         return ("gw", str(gw.id))
+    if k == "io_ctl":
+        # ["io_ctl", gwindex, "wait"|"kill"|"close_write"]: the IO object's control operations
+        gw = ctx.gws[op[1]]
+        io = getattr(gw, "_io", None)
+        if io is None:
+            raise HarnessError("gateway has no _io attribute (IO seam changed)")
+        r = getattr(io, op[2])()
+        return ("val", r if isinstance(r, (int, type(None))) else repr(r))
+    if k == "procstate":
+        for p in ctx.w.procs:
+            if p.name == op[1]:
+                return ("proc", p.alive, p.exit_status)
+        return ("noproc",)
     if k == "gwexit_id":
         try:
             gw = ctx.group[op[1]]
